@@ -8,6 +8,7 @@ CONSTANTS
   MaxWrite = 1
   Validates = {FALSE}
   SetClass = "none"
+  UpdEnabled = {TRUE}
   Deviations = {}
 VIEW vw
 INVARIANT NoViolation
